@@ -1,14 +1,14 @@
 (* Extraction of the executable models. Only the directives of ExtrOcamlBasic are in force:
    bool, option, unit, list, prod, sumbool, sumor as OCaml natives; andb/orb inlined.
    N, positive, nat, Z stay as extracted inductives. *)
-From Spok Require Import Base Lexer Parser Sha256 Hash Graph RunCache RunCacheInst Find Glob App Paths Vars Effects Cst CstWf Layout Ser.
+From Spok Require Import Base Lexer Parser Sha256 Hash Graph RunCache RunCacheInst Find Glob App Paths Vars Effects Cst CstWf Layout Ser Load.
 Require Extraction.
 Require Import ExtrOcamlBasic.
 Extraction "model.ml" lex parse fmt is_space is_letter is_punct
   sha256 hash_spec hash_run
   run_order valid_order valid_partial
   run_i apply_op_i init_i state_at_i
-  find_spokfile expand glob_spec expand_with old_spok_cb expand_pat glob_spec_pat invoke
+  find_spokfile expand glob_spec expand_with old_spok_cb expand_pat glob_spec_pat invoke load
   trim join_builtin expand_vars render_cmd env_lookup cmd_env clean
   clean_fs write_kind may_change
   render erase cst_wf_b layout ser_result.
